@@ -18,7 +18,7 @@ from core import impl as I
 
 ID = "C13"
 LEAN_MODULES = ["AcnProofs.C13"]
-TIE_MODULES = ["AcnProofs.Lemmas.CodeTieEvse"]
+TIE_MODULES = ["AcnProofs.Lemmas.CodeTieEvse", "AcnProofs.Lemmas.CodeTieEvseOps"]
 DRIVER = "drv_C13"
 REQUIRED_THEOREMS = [
     "Acn.C13.cont_valid_iff", "Acn.C13.cont_valid_iff_inf", "Acn.C13.deadband_valid_iff",
